@@ -243,3 +243,46 @@ func (r *Raft) VerifReplicateTo(peer Server, nextIndex, lastIndex uint64) VerifR
 	}
 	return res
 }
+
+// VerifRunLeader runs the leader loop on the calling goroutine, exactly as run()
+// does for a server whose state is Leader; it returns when leadership is lost.
+func (r *Raft) VerifRunLeader() { r.runLeader() }
+
+// VerifLeaderState is the leader-only bookkeeping of the main goroutine, to be
+// read at quiescent points only.
+type VerifLeaderState struct {
+	Active             bool
+	StartIndex         uint64
+	CommitmentIndex    uint64
+	MatchIndexes       map[ServerID]uint64
+	Inflight           []uint64
+	Replicating        []ServerID
+	VerifyPending      int
+	TransferInProgress bool
+}
+
+func (r *Raft) VerifLeaderDump() VerifLeaderState {
+	var s VerifLeaderState
+	c := r.leaderState.commitment
+	if c == nil || r.leaderState.inflight == nil {
+		return s
+	}
+	s.Active = true
+	c.Lock()
+	s.StartIndex = c.startIndex
+	s.CommitmentIndex = c.commitIndex
+	s.MatchIndexes = make(map[ServerID]uint64, len(c.matchIndexes))
+	for id, idx := range c.matchIndexes {
+		s.MatchIndexes[id] = idx
+	}
+	c.Unlock()
+	for e := r.leaderState.inflight.Front(); e != nil; e = e.Next() {
+		s.Inflight = append(s.Inflight, e.Value.(*logFuture).log.Index)
+	}
+	for id := range r.leaderState.replState {
+		s.Replicating = append(s.Replicating, id)
+	}
+	s.VerifyPending = len(r.leaderState.notify)
+	s.TransferInProgress = r.getLeadershipTransferInProgress()
+	return s
+}
